@@ -35,6 +35,7 @@ fn main() {
             std::process::exit(code);
         }
         Some("calib") => calib(&args[2..]),
+        Some("calib-gaps") => calib_gaps(&args[2..]),
         Some("judge") => {
             // development aid: vcheck judge <property> <input file> <output file> [syntax]  - the oracle's verdict on a given pair
             let prop = vlib::props::e1_prop(&args[2]).expect("library-level property");
@@ -184,6 +185,83 @@ fn calib(args: &[String]) {
     for (k, v) in labels {
         println!("  {k:28} {:8} fails {:6} ({:.3}%)", v.0, v.1, 100.0 * v.1 as f64 / v.0.max(1) as f64);
     }
+}
+
+/// development-time calibration of the T3 tier: one comment in one token gap, judged by the oracles of C01, C02, C03
+/// (and C10 when asked for); prints `role <tab> trials <tab> failures`. VERIF_T3_ALLOW_ONLY=1 restricts the run to
+/// the roles of domain/t3roles.allow.
+fn calib_gaps(args: &[String]) {
+    use proptest::prelude::*;
+    let cases: u32 = args.first().and_then(|s| s.parse().ok()).unwrap_or(100_000);
+    let props: Vec<&'static vlib::e1::E1Prop> = ["C01", "C02", "C03"].iter().map(|id| vlib::props::e1_prop(id).unwrap()).collect();
+    let allow_only = std::env::var("VERIF_T3_ALLOW_ONLY").is_ok();
+    let allow = vlib::e1::load_t3_allow();
+    let corpus: Vec<vlib::corpus::CorpusFile> = vlib::corpus::load().into_iter().filter(|f| f.source.len() <= 6_000).collect();
+    let mut known = std::collections::BTreeSet::new();
+    for id in ["C01", "C02", "C03"] {
+        for f in vlib::run::load_findings(id) {
+            known.extend(f.pairs.iter().cloned());
+        }
+    }
+    let workers = vlib::engine::num_workers();
+    let seed = vlib::run::seed();
+    let res = vlib::engine::par_workers(workers, |w| {
+        let mut r = vlib::run::runner(seed, "calib-gaps", w, cases / workers as u32);
+        let strat = proptest::collection::vec(any::<u8>(), 0..400);
+        let counts = std::cell::RefCell::new(std::collections::BTreeMap::<String, (u64, u64)>::new());
+        let fails = std::cell::RefCell::new(Vec::<String>::new());
+        let _ = r.run(&strat, |tape| {
+            let mut labels = Vec::new();
+            let Some((case, _key, role)) = vlib::e1::t3_build(&tape, &corpus, &known, &mut labels) else { return Ok(()) };
+            if allow_only && !allow.contains(&role) {
+                return Ok(());
+            }
+            let (out, ticks) = vlib::engine::run_format(&case);
+            let mut failed = None;
+            for p in &props {
+                match vlib::engine::guarded(|| (p.oracle)(&case, &out, ticks)) {
+                    Ok(Verdict::Fail(d)) => {
+                        failed = Some(format!("{}: {d}", p.id));
+                        break;
+                    }
+                    Ok(_) => {}
+                    Err(e) => {
+                        failed = Some(format!("{}: oracle panic {e}", p.id));
+                        break;
+                    }
+                }
+            }
+            let mut c = counts.borrow_mut();
+            let e = c.entry(role.clone()).or_default();
+            e.0 += 1;
+            if let Some(d) = failed {
+                e.1 += 1;
+                if allow_only && fails.borrow().len() < 5 {
+                    fails.borrow_mut().push(format!("---- {role} :: {d} [{} {}]\n{}", case.cfg.syntax.name(), case.cfg.label(), case.source.chars().take(600).collect::<String>()));
+                }
+            }
+            Ok(())
+        });
+        (counts.into_inner(), fails.into_inner())
+    });
+    let mut all = std::collections::BTreeMap::<String, (u64, u64)>::new();
+    for (c, fails) in res {
+        for (k, v) in c {
+            let e = all.entry(k).or_default();
+            e.0 += v.0;
+            e.1 += v.1;
+        }
+        for f in fails {
+            eprintln!("{f}");
+        }
+    }
+    let (mut n, mut f) = (0, 0);
+    for (k, v) in &all {
+        println!("{k}\t{}\t{}", v.0, v.1);
+        n += v.0;
+        f += v.1;
+    }
+    eprintln!("roles {} trials {n} failures {f}", all.len());
 }
 
 #[allow(dead_code)]
